@@ -7,6 +7,7 @@
                            the output flags left unconstrained (so the verdict cannot depend on them)
   R-C07-status-buckets     every reporter's Status -> bucket mapping agrees with one oracle (summary table, console summary,
                            JUnit test case, JUnit status attribute, SARIF from not_compliant only)
+  R-C07-bucket-tables      SARIF turns each message of a failing clause into exactly one result (none dropped for lacking a location)
   R-C07-escaping           XML text of the JUnit report is written through the escaping constructor
 Not claimed: that serde_json/serde_yaml/quick-xml emit well-formed documents; equality of the library loader with the CLI loader (C11).
 """
@@ -333,6 +334,58 @@ def bucket_tables(ctx, cr):
                "SARIF results are built from FileReport fields %s (must use not_compliant, never compliant/not_applicable)" % sorted(read), fn=cr.fns[fs[0]])
 
 
+def sarif_one_result_per_message(ctx, cr):
+    """JSON / YAML list every failing check of a rule; SARIF must too: SarifResults::from turns EACH message of a failing clause into
+    exactly one result (the fold over get_message() is read as the loop it is; per element one push, and the accumulator comes back).
+    A `return results` / `continue` for messages without a location drops checks that JSON still shows."""
+    from engine import ai
+    from engine.statusmon import Mon
+    rule = "R-C07-bucket-tables"
+    key = next((k for k in cr.fns if k.startswith("<commands::reporters::validate::sarif::SarifResults as std::convert::From<(") and k.endswith(">::from")), None)
+    if not key:
+        ctx.lost(rule, rule + ":sarif-one-result-per-message", "impl From<(&ClauseReport, &str)> for SarifResults")
+        return
+    f = cr.fns[key]
+    outs = []
+
+    class H(ai.Hooks):
+        lazy_pipes = True
+
+        def inline(self, a, st, k, fn):
+            return fn.get("kind") == "closure" and k.startswith(key)
+
+        def call(self, a, st, term, callee, args):
+            p = M.norm_path(callee.get("path", ""))
+            decl = M.norm_path(callee.get("decl", ""))
+            mon = st.mon or Mon()
+            if decl == "std::iter::Iterator::next" and term.get("to") is not None:
+                it = a.resolve(st, args[0])
+                if it[0] == "ref":
+                    it = a.resolve(st, a.read_at(st, it[1], it[2]))
+                if ai.is_pipe(it):
+                    return None
+                if mon.get("n"):
+                    return [(("enum", ai.OPTION, 0, ()), mon)]
+                return [(("enum", ai.OPTION, 1, (("sym", "MSG"),)), mon.set(n=1)), (("enum", ai.OPTION, 0, ()), mon)]
+            if p in ("std::vec::Vec::push",) and args:
+                return [(("tuple", ()), mon.set(pushes=(mon.get("pushes") or 0) + 1))]
+            return None
+
+        def ret(self, a, st, v):
+            outs.append(st.mon or Mon())
+    a = ai.AI(cr, H())
+    try:
+        a.run(key, mon=Mon())
+    except ai.Undecided as e:
+        ctx.ob(rule, rule + ":sarif-one-result-per-message", False, "undecided %s" % e, fn=f)
+        return
+    ctx.states += a.n_states
+    counts = sorted(set((m.get("pushes") or 0) for m in outs if m.get("n")))
+    ctx.ob(rule, rule + ":sarif-one-result-per-message", counts == [1], "per message of a failing clause SARIF gets %s result(s) on the different paths%s" % (
+        counts, "" if counts == [1] else ": a failing check can be missing from (or doubled in) the SARIF results while JSON/YAML report it once"), fn=f,
+           sample={"fn": key, "results_per_message": counts})
+
+
 def escaping(ctx):
     rule = "R-C07-escaping"
     n_new = 0
@@ -355,6 +408,7 @@ def run(ctx):
     single_core(ctx)
     flag_noninterference(ctx)
     bucket_tables(ctx, ctx.lib)
+    sarif_one_result_per_message(ctx, ctx.lib)
     escaping(ctx)
     ctx.assumptions += [
         "serde_json / serde_yaml / quick-xml emit well-formed documents for the values they are given (dependencies)",
